@@ -1,5 +1,5 @@
 (* C28 — Writes validate keys and sizes deterministically; accepted transactions fit.
-   Theorem statements only; every proof is `exact <lemma>` from A/TxnModifyProofs.v.
+   Statements only; every proof is `exact <lemma>` from A/TxnModifyProofs.v.
    Model: A/TxnModify.v (Txn.modify, checkSize, isBanned, Txn.Get front part, commitAndSend's
    entry list, sendToWriteCh accounting, batch limits from MemTableSize). *)
 From Verif Require Import Bytes Keys Consts TxnModify.
@@ -134,6 +134,19 @@ Theorem C28_commit_fits_refuted_small_threshold :
            (fst (run_calls (db_of_memtable mts) (new_txn false true) cs)) cts = CErr ErrTxnTooBig.
 Proof. exact commit_fits_refuted_small_threshold. Qed.
 Print Assumptions C28_commit_fits_refuted_small_threshold.
+
+(* the hypothesis call_thr_ok cannot be dropped (finding F18): an entry whose cached threshold is 0
+   (ValueThreshold = 0) is re-estimated with the commit-time threshold; if dynamic thresholding
+   raised it above len(value) meanwhile, Commit fails although the marker is covered *)
+Theorem C28_commit_fits_refuted_threshold_moved :
+  exists mts cs thr_c cts,
+    all_accepted (snd (run_calls (db_of_memtable mts) (new_txn false true) cs)) /\
+    (let t := fst (run_calls (db_of_memtable mts) (new_txn false true) cs) in
+     marker_extra cts thr_c <= 2 * Z.of_nat (length (t_pending t) + length (t_dups t))) /\
+    commit (db_of_memtable mts) thr_c false
+           (fst (run_calls (db_of_memtable mts) (new_txn false true) cs)) cts = CErr ErrTxnTooBig.
+Proof. exact commit_fits_refuted_threshold_moved. Qed.
+Print Assumptions C28_commit_fits_refuted_threshold_moved.
 
 (* pinned tree: holds whenever the marker's extra cost (its digits, or 12 when it is estimated as
    a value pointer) is covered by the two spare bytes of each final entry — e.g. always for
